@@ -7,12 +7,23 @@
   * `LeaderElection` nodes with each strategy (Bully, Ring, Randomized), a partition of the current leader;
   * a `DistributedLock` manager with 3–6 contenders on 1–2 lock names: yield-on-future waiters, polling waiters
     (the pattern of examples/distributed/distributed_lock_fencing.py), holders that release, holders that let
-    the lease expire, stale releases with an old fencing token, bounded waiter queues."""
+    the lease expire, stale releases with an old fencing token, bounded waiter queues.
+
+Widened configuration space: clusters of 1–7 nodes, peers / members given to the constructors (`peers=`, `members=`) or
+by `set_peers` / `add_member`, default state machines, default quorums and default election strategy; all three
+election strategies side by side in one run (`le_bank`) or one of them; retry delay, heartbeat intervals, leader lease,
+election timeout, lock lease, hold time, poll period, command / proposal timeouts from a boundary palette with
+overlapping ranges (heartbeat interval longer than the election timeout, lease shorter than the hold time or zero,
+command timeout shorter than a network hop, link latency longer than every timeout); lossless / zero-latency / 50 % /
+100 % lossy links; proposals at the same (possibly nanosecond-lossy) instant; lock contenders that use the
+`LockAcquireRequest` / `LockReleaseRequest` event protocol, re-entrant acquires, 1–8 contenders on 1–3 locks, bursts of
+same-instant requests, sustained heavy command load; partition / crash windows on lossy instants that may outlive the
+run; an occasional long run."""
 from __future__ import annotations
 
 import random
 
-from hv.scenarios.base import T, seed_all, stats_of, sub_seed
+from hv.scenarios.base import T, dur_ms, seed_all, stats_of, sub_seed
 
 NAME = "paxos"
 MODEL = "C12"
@@ -22,65 +33,104 @@ COMPONENTS = ["PaxosNode", "MultiPaxosNode", "FlexiblePaxosNode", "LeaderElectio
 
 
 def gen_cfg(rng):
-    end = rng.choice([3.0, 4.0, 5.0])
+    end = rng.choice([3.0, 4.0, 5.0]) if rng.random() > 0.1 else 8.0
     end_ms = int(end * 1000)
-    n_px = rng.choice([3, 5])
-    n_mp = rng.choice([3, 5])
-    n_fp = rng.choice([3, 4, 5])
-    q1 = rng.randint(1, n_fp)
-    q2 = rng.randint(max(1, n_fp + 1 - q1), n_fp)
-    n_le = rng.randint(3, 5)
-    n_lk = rng.randint(3, 6)
+    long = end > 5
+    n_px = rng.choice([1, 2, 3, 3, 5, 5, 7])
+    n_mp = rng.choice([1, 2, 3, 3, 5, 7])
+    n_fp = rng.choice([1, 2, 3, 4, 5, 6])
+    if n_fp == 1 and rng.random() < 0.5:
+        # the constructor's defaults: they are computed from the peers known *at construction* (none for the first
+        # node of a cluster), so a later set_peers() on a larger cluster rejects them -> only for the 1-node cluster
+        q1 = q2 = None
+    elif rng.random() < 0.15:
+        q1 = q2 = n_fp // 2 + 1                # plain majorities
+    else:
+        q1 = rng.randint(1, n_fp)
+        q2 = rng.randint(max(1, n_fp + 1 - q1), n_fp)
+    n_le = rng.randint(2, 6)
+    le_bank = rng.random() < 0.6               # all three strategies side by side
+    if le_bank:
+        n_le = min(n_le, 4)
+    n_lk = rng.choice([1, 2, 3, 4, 5, 6, 8])
 
-    def win(lo=400):
-        a = rng.randint(lo, end_ms - 1200)
-        return [a, a + rng.randint(200, 900)]
+    def win(lo=100):
+        a = dur_ms(rng, lo, end_ms - 600)
+        return [a, dur_ms(rng, a + 1, min(a + 1500, end_ms + 400))]
 
+    def hb(lo):
+        lo = lo * (2 if long else 1)
+        return dur_ms(rng, lo, 300) if rng.random() < 0.7 else dur_ms(rng, 300, 2000)
+
+    # proposal instants: a few distinct (possibly lossy) instants, several proposers on the same one
+    instants = [dur_ms(rng, 1, end_ms - 500) for _ in range(3)]
+    heavy = rng.random() < 0.15
+    clients = [{"cluster": rng.choice(["mp", "fp"]),
+                "rate": rng.choice([5, 10, 20]) if not heavy else rng.choice([100, 200]),
+                "poisson": rng.random() < 0.5,
+                "policy": rng.choice(["leader", "leader", "random", "forward"]),
+                "burst": rng.choice([1, 1, 1, 3, 10]) if not heavy else 1}
+               for _ in range(rng.randint(2, 4) if not heavy else rng.randint(1, 2))]
+    while sum(c["rate"] * c["burst"] for c in clients) * end > 1500:
+        c = max(clients, key=lambda c: c["rate"] * c["burst"])
+        if c["burst"] > 1:
+            c["burst"] //= 2
+        elif c["rate"] > 5:
+            c["rate"] = max(5, c["rate"] // 2)
+        else:
+            break
+    hb_ms = hb(15 if max(n_mp, n_fp) <= 5 else 30)
+    contenders = [{"mode": rng.choice(["yield", "yield", "poll", "event"]), "hold_ms": dur_ms(rng, 1, 600),
+                   "rate": rng.choice([2, 5, 10, 30]), "expire": rng.random() < 0.3,
+                   "stale": rng.random() < 0.3, "try": rng.random() < 0.2,
+                   "reentrant": rng.random() < 0.2, "burst": rng.choice([1, 1, 1, 2, 4])} for _ in range(n_lk)]
     return {
         "end": end,
         "events_before_sim": rng.random() < 0.25,
-        "link": rng.choice(["const", "exp", "exp-lossy", "datacenter"]),
-        "lat_ms": rng.randint(1, 20),
-        "loss": rng.choice([0.02, 0.1]),
+        "link": rng.choice(["const", "exp", "exp-lossy", "datacenter", "zero", "const-lossy"]),
+        "lat_ms": dur_ms(rng, 0.1, 20) if rng.random() < 0.7 else dur_ms(rng, 20, 700),
+        "loss": rng.choice([0.0, 0.02, 0.1, 0.5, 1.0]),
+        "peers_via": rng.choice(["set", "set", "ctor"]),      # ctor: the last node of every cluster gets `peers=`
+        "default_sm": rng.random() < 0.2,                     # node 0 of mp / fp is built without `state_machine=`
         # single decree
         "n_px": n_px,
-        "retry_ms": rng.choice([30, 80, 200]),
-        "proposals": [{"node": rng.randrange(n_px), "at": rng.choice([100, 100, 101, 105, 300, 900])}
-                      for _ in range(rng.randint(2, 4))],
-        "px_part": win(50) if rng.random() < 0.6 else None,
-        "px_timeout_ms": rng.choice([100, 500, 2000]),
+        "retry_ms": dur_ms(rng, 1, 800),
+        "proposals": [{"node": rng.randrange(n_px), "at": rng.choice(instants) + rng.choice([0, 0, 0, 1, 5])}
+                      for _ in range(rng.randint(2, 8))],
+        "px_part": win(10) if rng.random() < 0.6 else None,
+        "px_timeout_ms": dur_ms(rng, 20, 3000),
         # multi / flexible
         "n_mp": n_mp,
         "n_fp": n_fp,
         "q1": q1,
         "q2": q2,
-        "hb_ms": rng.choice([40, 100, 250]),
-        "starts": [{"cluster": rng.choice(["mp", "fp"]), "node": rng.randrange(3), "at": rng.choice([10, 10, 12, 200, 800,
-                                                                                               1500])}
+        "hb_ms": hb_ms,
+        "mp_lease_ms": rng.choice([None, dur_ms(rng, 5, 3000)]),      # None: 4 heartbeat intervals (as before)
+        "starts": [{"cluster": rng.choice(["mp", "fp"]), "node": rng.randrange(7),
+                    "at": rng.choice(instants + [10, 10, 12]) + rng.choice([0, 0, 2])}
                    for _ in range(rng.randint(2, 6))],
-        "clients": [{"cluster": rng.choice(["mp", "fp"]), "rate": rng.choice([5, 10, 20]), "poisson": rng.random() < 0.5,
-                     "policy": rng.choice(["leader", "leader", "random", "forward"])}
-                    for _ in range(rng.randint(2, 4))],
-        "cmd_timeout_ms": rng.choice([80, 300]),
-        "keys": rng.randint(2, 5),
-        "crash": {"cluster": rng.choice(["mp", "fp"]), "node": rng.randrange(3), "win": win(),
+        "clients": clients,
+        "cmd_timeout_ms": dur_ms(rng, 1, 1000),
+        "keys": rng.randint(1, 5),
+        "crash": {"cluster": rng.choice(["mp", "fp"]), "node": rng.randrange(7), "win": win(),
                   "forever": rng.random() < 0.3} if rng.random() < 0.6 else None,
         # leader election
         "n_le": n_le,
-        "strategy": rng.choice(["bully", "ring", "random"]),
-        "ballot_range": rng.choice([3, 1000, 1_000_000]),
-        "le_timeout_ms": rng.choice([100, 200, 400]),
-        "le_hb_ms": rng.choice([30, 60, 150]),
+        "le_bank": le_bank,
+        "strategy": rng.choice(["bully", "ring", "random", "default"]),
+        "le_members_via": rng.choice(["add", "add", "ctor"]),
+        "ballot_range": rng.choice([1, 2, 3, 1000, 1_000_000]),
+        "le_timeout_ms": dur_ms(rng, 20 * (2 if long else 1), 400) if rng.random() < 0.7 else dur_ms(rng, 400, 2000),
+        "le_hb_ms": hb(15),
         "le_part": win() if rng.random() < 0.7 else None,
         # lock
         "n_lk": n_lk,
-        "lease_ms": rng.choice([30, 80, 200, 500]),
-        "max_waiters": rng.choice([0, 0, 1, 2]),
-        "locks": rng.randint(1, 2),
-        "contenders": [{"mode": rng.choice(["yield", "yield", "poll"]), "hold_ms": rng.choice([5, 20, 60, 150, 400]),
-                        "rate": rng.choice([2, 5, 10]), "expire": rng.random() < 0.3,
-                        "stale": rng.random() < 0.3, "try": rng.random() < 0.2} for _ in range(n_lk)],
-        "poll_ms": rng.choice([10, 10, 50, 100]),
+        "lock_defaults": rng.random() < 0.08,                 # DistributedLock(name) with the default lease (10 s)
+        "lease_ms": dur_ms(rng, 1, 300, zero=True) if rng.random() < 0.6 else dur_ms(rng, 300, 2500),
+        "max_waiters": rng.choice([0, 0, 1, 2, 5]),
+        "locks": rng.randint(1, 3),
+        "contenders": contenders,
+        "poll_ms": dur_ms(rng, 2, 300),
     }
 
 
@@ -116,6 +166,10 @@ def build(cfg, seed):
             return NetworkLink(name=name, latency=ConstantLatency(lat))
         if k == "exp":
             return NetworkLink(name=name, latency=ExponentialLatency(lat))
+        if k == "zero":
+            return NetworkLink(name=name, latency=ConstantLatency(0.0))
+        if k == "const-lossy":
+            return NetworkLink(name=name, latency=ConstantLatency(lat), packet_loss_rate=cfg["loss"])
         return NetworkLink(name=name, latency=ExponentialLatency(lat), packet_loss_rate=cfg["loss"],
                            jitter=ConstantLatency(0.001))
 
@@ -141,9 +195,21 @@ def build(cfg, seed):
         return idx == 0, val
 
     # ------------------------------------------------------------------ single-decree Paxos
-    px = [PaxosNode(name=f"px-{i}", network=net, retry_delay=cfg["retry_ms"] / 1000.0) for i in range(cfg["n_px"])]
-    for nd in px:
-        nd.set_peers(px)
+    via_ctor = cfg.get("peers_via", "set") == "ctor"
+
+    def cluster(n, make):
+        """n nodes; with peers_via == "ctor" the last one receives its peers through the constructor"""
+        nodes = []
+        for i in range(n):
+            last = via_ctor and i == n - 1
+            nodes.append(make(i, {"peers": list(nodes)} if last else {}))
+        for i, nd in enumerate(nodes):
+            if not (via_ctor and i == n - 1):
+                nd.set_peers(nodes)
+        return nodes
+
+    px = cluster(cfg["n_px"], lambda i, kw: PaxosNode(name=f"px-{i}", network=net,
+                                                      retry_delay=cfg["retry_ms"] / 1000.0, **kw))
     mesh(px)
     entities += px
 
@@ -154,7 +220,7 @@ def build(cfg, seed):
 
         def handle_event(self, event):
             k = event.context["k"]
-            nd = px[event.context["node"]]
+            nd = px[event.context["node"] % len(px)]
             fut = nd.propose(f"val-{k}")
             if not fut.is_resolved:
                 yield 0.0, nd.start_phase1()
@@ -168,7 +234,7 @@ def build(cfg, seed):
         pre.append(_d(Event, time=at_s(p["at"]), event_type="Propose", target=proposer, context={"k": k, "node": p["node"]}))
     if cfg["px_part"]:
         a, b = cfg["px_part"]
-        iso = px[cfg["proposals"][0]["node"]]
+        iso = px[cfg["proposals"][0]["node"] % len(px)]
         holder = {}
         pre.append(_d(Event.once, time=at_s(a), event_type="PxPartition",
                               fn=lambda e: holder.__setitem__("h", net.partition([iso], [x for x in px if x is not iso]))))
@@ -183,24 +249,29 @@ def build(cfg, seed):
 
     # ------------------------------------------------------------------ Multi-Paxos / Flexible Paxos
     mp_sm = [KVStateMachine() for _ in range(cfg["n_mp"])]
-    mp = [MultiPaxosNode(name=f"mp-{i}", network=net, state_machine=mp_sm[i],
-                         heartbeat_interval=cfg["hb_ms"] / 1000.0, leader_lease_timeout=cfg["hb_ms"] * 4 / 1000.0)
-          for i in range(cfg["n_mp"])]
-    for nd in mp:
-        nd.set_peers(mp)
-    mesh(mp)
     fp_sm = [KVStateMachine() for _ in range(cfg["n_fp"])]
-    fp = [FlexiblePaxosNode(name=f"fp-{i}", network=net, state_machine=fp_sm[i],
-                            phase1_quorum=cfg["q1"], phase2_quorum=cfg["q2"],
-                            heartbeat_interval=cfg["hb_ms"] / 1000.0) for i in range(cfg["n_fp"])]
-    for nd in fp:
-        nd.set_peers(fp)
+    if cfg.get("default_sm"):
+        mp_sm[0] = fp_sm[0] = None      # node 0 keeps the constructor's default state machine (not observable)
+    lease_ms = cfg.get("mp_lease_ms")
+    if lease_ms is None:
+        lease_ms = cfg["hb_ms"] * 4
+
+    def sm_kw(sm):
+        return {} if sm is None else {"state_machine": sm}
+
+    mp = cluster(cfg["n_mp"], lambda i, kw: MultiPaxosNode(
+        name=f"mp-{i}", network=net, heartbeat_interval=cfg["hb_ms"] / 1000.0,
+        leader_lease_timeout=lease_ms / 1000.0, **sm_kw(mp_sm[i]), **kw))
+    mesh(mp)
+    fp = cluster(cfg["n_fp"], lambda i, kw: FlexiblePaxosNode(
+        name=f"fp-{i}", network=net, phase1_quorum=cfg["q1"], phase2_quorum=cfg["q2"],
+        heartbeat_interval=cfg["hb_ms"] / 1000.0, **sm_kw(fp_sm[i]), **kw))
     mesh(fp)
     entities += mp + fp
     clusters = {"mp": mp, "fp": fp}
 
     for k, s in enumerate(cfg["starts"]):
-        nd = clusters[s["cluster"]][s["node"]]
+        nd = clusters[s["cluster"]][s["node"] % len(clusters[s["cluster"]])]
         pre.append(_d(Event.once, time=at_s(s["at"]), event_type="StartPhase1", fn=lambda e, nd=nd: nd.start(), daemon=True))
 
     class Client(Entity):
@@ -212,6 +283,11 @@ def build(cfg, seed):
             self.results = []
 
         def handle_event(self, event):
+            burst = self.cc.get("burst", 1)
+            k = event.context.get("burst_left", burst - 1) if burst > 1 else 0
+            if k > 0:
+                # the remaining submissions of this burst start at the same instant, each in its own process
+                yield 0.0, [Event(time=self.now, event_type="Tick", target=self, context={"burst_left": k - 1})]
             self.n += 1
             nodes = clusters[self.cc["cluster"]]
             key = f"user-{self.rng.randrange(cfg['keys'])}"
@@ -256,7 +332,9 @@ def build(cfg, seed):
             obs[nd.name + ".x"] = (lambda nd=nd, sm=sms[i]: {
                 "is_leader": nd.is_leader, "leader": nd.leader, "commit": nd.log.commit_index,
                 "log": [[e.index, e.term, e.command] for e in nd.log.entries_after(0)],
-                "kv": sorted(sm.data.items())})
+                "q": [getattr(nd, "phase1_quorum", None), getattr(nd, "phase2_quorum", None),
+                      getattr(nd, "quorum_size", None)],
+                "kv": None if sm is None else sorted(sm.data.items())})
     for cl in clients:
         obs[cl.name] = (lambda cl=cl: {"n": cl.n, "ok": cl.ok, "timeout": cl.timed_out, "fwd": cl.forwarded,
                                        "results": cl.results})
@@ -264,26 +342,45 @@ def build(cfg, seed):
     faults = FaultSchedule("faults")
     c = cfg["crash"]
     if c:
-        nm = clusters[c["cluster"]][c["node"]].name
+        nm = clusters[c["cluster"]][c["node"] % len(clusters[c["cluster"]])].name
         faults.add(CrashNode(nm, at=c["win"][0] / 1000.0, restart_at=None if c["forever"] else c["win"][1] / 1000.0))
     obs["faults"] = stats_of(faults)
 
     # ------------------------------------------------------------------ LeaderElection
-    def strategy():
-        s = cfg["strategy"]
+    def strategy(s):
         if s == "bully":
             return BullyStrategy()
         if s == "ring":
             return RingStrategy()
+        if s == "default":
+            return None                      # the constructor's default strategy
         return RandomizedStrategy(ballot_range=cfg["ballot_range"])
 
-    le = [LeaderElection(name=f"le-{i}", network=net, strategy=strategy(),
-                         election_timeout=cfg["le_timeout_ms"] / 1000.0,
-                         heartbeat_interval=cfg["le_hb_ms"] / 1000.0) for i in range(cfg["n_le"])]
-    for nd in le:
-        for m in le:
-            nd.add_member(m)
-    mesh(le)
+    le_timing = dict(election_timeout=cfg["le_timeout_ms"] / 1000.0, heartbeat_interval=cfg["le_hb_ms"] / 1000.0)
+    members_ctor = cfg.get("le_members_via", "add") == "ctor"
+
+    def le_group(sname, prefix):
+        grp = []
+        for i in range(cfg["n_le"]):
+            kw = {}
+            if members_ctor and i == cfg["n_le"] - 1:
+                kw["members"] = {m.name: m for m in grp}     # the last node gets its member table from the constructor
+            grp.append(LeaderElection(name=f"{prefix}{i}", network=net, strategy=strategy(sname), **le_timing, **kw))
+        return grp
+
+    if cfg.get("le_bank"):
+        # one group per strategy, same timing, same partition schedule
+        le_groups = [(sname, le_group(sname, f"le-{sname}-")) for sname in ("bully", "ring", "random")]
+    else:
+        le_groups = [(cfg["strategy"], le_group(cfg["strategy"], "le-"))]
+    le = [nd for _, grp in le_groups for nd in grp]
+    for _, grp in le_groups:
+        for i, nd in enumerate(grp):
+            for m in grp:
+                if members_ctor and i == len(grp) - 1 and m is not nd:
+                    continue
+                nd.add_member(m)
+        mesh(grp)
     entities += le
 
     def start_le(e):
@@ -299,13 +396,15 @@ def build(cfg, seed):
         h2 = {}
 
         def le_partition(e):
-            cur = [nd for nd in le if nd.is_leader]
-            iso = cur[0] if cur else le[-1]
-            le_log.append(["part", iso.name])
-            h2["h"] = net.partition([iso], [x for x in le if x is not iso])
+            for sname, grp in le_groups:
+                cur = [nd for nd in grp if nd.is_leader]
+                iso = cur[0] if cur else grp[-1]
+                le_log.append(["part", iso.name])
+                h2[sname] = net.partition([iso], [x for x in grp if x is not iso])
 
         def le_heal(e):
-            h2["h"].heal()
+            for sname, grp in le_groups:
+                h2[sname].heal()
             le_log.append(["heal", [nd.name for nd in le if nd.is_leader]])
 
         pre.append(_d(Event.once, time=at_s(a), event_type="LePartition", fn=le_partition))
@@ -317,9 +416,12 @@ def build(cfg, seed):
     obs["le_log"] = lambda: le_log
 
     # ------------------------------------------------------------------ DistributedLock
-    lock = DistributedLock("lock-mgr", lease_duration=cfg["lease_ms"] / 1000.0, max_waiters=cfg["max_waiters"])
+    if cfg.get("lock_defaults"):
+        lock = DistributedLock("lock-mgr")         # default lease (10 s: longer than the run), unbounded waiters
+    else:
+        lock = DistributedLock("lock-mgr", lease_duration=cfg["lease_ms"] / 1000.0, max_waiters=cfg["max_waiters"])
     entities.append(lock)
-    lock_names = ["db-lock", "user-17"][: cfg["locks"]]
+    lock_names = ["db-lock", "user-17", "k3"][: cfg["locks"]]
     protected = {"last_token": {nm: 0 for nm in lock_names}, "fenced": 0, "writes": 0}
 
     def take_expiry():
@@ -337,7 +439,7 @@ def build(cfg, seed):
             self.busy = False
             self.tokens = []
             self.acquired = self.rejected = self.released = self.release_failed = self.skipped = 0
-            self.try_fail = self.polls = 0
+            self.try_fail = self.polls = self.reentered = self.reentry_mismatch = 0
             self.old = None
 
         def _write(self, grant):
@@ -349,6 +451,11 @@ def build(cfg, seed):
                 protected["last_token"][grant.lock_name] = grant.fencing_token
 
         def handle_event(self, event):
+            burst = self.cc.get("burst", 1)
+            k = event.context.get("burst_left", burst - 1) if burst > 1 else 0
+            if k > 0:
+                # further requests of this burst arrive at the same instant (they find the contender busy)
+                yield 0.0, [Event(time=self.now, event_type="Tick", target=self, context={"burst_left": k - 1})]
             if self.busy:
                 self.skipped += 1
                 return None
@@ -362,7 +469,14 @@ def build(cfg, seed):
                     return None
                 yield 0.0, take_expiry()
             else:
-                fut = lock.acquire(name, self.name)
+                if self.cc["mode"] == "event":
+                    # the lock manager's event protocol: LockAcquireRequest carrying a reply future
+                    fut = SimFuture()
+                    yield 0.0, [Event(time=self.now, event_type="LockAcquireRequest", target=lock,
+                                      context={"metadata": {"lock_name": name, "requester": self.name},
+                                               "reply_future": fut})]
+                else:
+                    fut = lock.acquire(name, self.name)
                 if self.cc["mode"] == "poll":
                     while not fut.is_resolved:
                         self.polls += 1
@@ -377,8 +491,21 @@ def build(cfg, seed):
                 yield 0.0, take_expiry()
             self.acquired += 1
             if len(self.tokens) < 40:
-                self.tokens.append([name, grant.fencing_token, grant.holder, grant.expires_at])
-            yield self.cc["hold_ms"] / 1000.0
+                self.tokens.append([name, grant.fencing_token, grant.holder, grant.expires_at, grant.granted_at,
+                                    grant.lease_duration])
+            if self.cc.get("reentrant"):
+                # re-entrant acquire half way through the hold: same token while the lease lasts
+                yield self.cc["hold_ms"] / 2000.0
+                again = lock.try_acquire(name, self.name)
+                if again is not None:
+                    self.reentered += 1
+                    if again.fencing_token != grant.fencing_token:
+                        self.reentry_mismatch += 1      # the lease expired in between and the lock was granted anew
+                        grant = again
+                    yield 0.0, take_expiry()
+                yield self.cc["hold_ms"] / 2000.0
+            else:
+                yield self.cc["hold_ms"] / 1000.0
             self._write(grant)
             if self.cc["stale"] and self.old is not None and self.old[0] == name:
                 if lock.release(name, self.old[1]):     # an old token must not release the current holder
@@ -387,7 +514,12 @@ def build(cfg, seed):
                     self.release_failed += 1
             self.old = (name, grant.fencing_token)
             if not self.cc["expire"]:
-                if lock.release(name, grant.fencing_token):
+                if self.cc["mode"] == "event":
+                    yield 0.0, [Event(time=self.now, event_type="LockReleaseRequest", target=lock,
+                                      context={"metadata": {"lock_name": name,
+                                                            "fencing_token": grant.fencing_token}})]
+                    self.released += 1          # (request sent; the manager does not answer)
+                elif lock.release(name, grant.fencing_token):
                     self.released += 1
                 else:
                     self.release_failed += 1    # the lease had already expired
@@ -405,7 +537,8 @@ def build(cfg, seed):
     for ct in contenders:
         obs[ct.name] = (lambda ct=ct: {"acq": ct.acquired, "rej": ct.rejected, "rel": ct.released,
                                        "rel_failed": ct.release_failed, "skipped": ct.skipped, "polls": ct.polls,
-                                       "try_fail": ct.try_fail, "tokens": ct.tokens})
+                                       "try_fail": ct.try_fail, "reentered": ct.reentered,
+                                       "reentry_mismatch": ct.reentry_mismatch, "tokens": ct.tokens})
 
     obs["net"] = lambda: {"routed": net.events_routed, "no_route": net.events_dropped_no_route,
                           "partition": net.events_dropped_partition,
